@@ -1139,3 +1139,109 @@ package plenccodec
 //@   ensures[C05] wfsum() ==> len(result) == len(data) + @Size(c, ptr, tag)              # the codec law: Size is the number of bytes Append adds
 //@   ensures[C02] len(tag) <= 16 ==> at(result, len(data), bytes(tag), 16) && at(result, len(data) + len(tag), venc(uint64(loadi64(ptr + 8))), 10)      # the tag, then the element count
 //@   ensures[C06,C11] len(result) >= len(data) && (forall j int :: 0 <= j && j < len(data) ==> result[j] == old(data[j]))
+
+//@ # ---- packed slices: the elements one after the other, no count and no per-element prefix (C02, C05) ----
+//@ # psum(i) is the encoded size of the first i elements (ghost, defined by its recurrence under wfsum()).
+//@ func plenccodec.WTVarIntSliceWrapper.size
+//@   safety C05
+//@   assigns nothing
+//@   assume 0 <= loadi64(ptr + 8) && loadi64(ptr + 8) <= loadi64(ptr + 16) && loadi64(ptr + 16) < (1 << 40)   # the value is a well-formed slice header
+//@   ghostdef wfsum() ==> psum(0) == 0
+//@   loop 1 ghostdef wfsum() && i < h.Len ==> psum(i + 1) == psum(i) + @plenccodec.Codec.Size(c.Underlying, h.Data + i * int(c.EltSize), nil)
+//@   loop 1 assume 0 <= psum(i) && psum(i) < (1 << 50)              # the total encoded size fits well inside an int
+//@   loop 1 invariant[C05] 0 <= i && i <= h.Len && (wfsum() ==> size == psum(i))
+//@   loop 1 decreases h.Len - i
+//@   ensures[C05,C02] wfsum() ==> result == psum(loadi64(ptr + 8))
+
+//@ func plenccodec.WTVarIntSliceWrapper.append
+//@   safety C05 C11
+//@   assigns nothing
+//@   assume 0 <= loadi64(ptr + 8) && loadi64(ptr + 8) <= loadi64(ptr + 16) && loadi64(ptr + 16) < (1 << 40)   # the value is a well-formed slice header
+//@   ghostdef wfsum() ==> psum(0) == 0
+//@   loop 1 ghostdef wfsum() && i < h.Len ==> psum(i + 1) == psum(i) + @plenccodec.Codec.Size(c.Underlying, h.Data + i * int(c.EltSize), nil)
+//@   loop 1 assume 0 <= psum(i) && psum(i) < (1 << 50)              # the total encoded size fits well inside an int
+//@   loop 1 invariant[C05] 0 <= i && i <= h.Len && (wfsum() ==> len(data) == len(data0) + psum(i))
+//@   loop 1 invariant[C06,C11] len(data) >= len(data0) && (forall j int :: 0 <= j && j < len(data0) ==> data[j] == data0[j])
+//@   loop 1 decreases h.Len - i
+//@   loop 1 step[C02,C05] called_Codec_Append && call_Codec_Append_arg0 == c.Underlying && call_Codec_Append_arg2 == h.Data + head_i * int(c.EltSize) && len(call_Codec_Append_arg3) == 0
+//@   ensures[C05] wfsum() ==> len(result) == len(data) + psum(loadi64(ptr + 8))
+//@   ensures[C06,C11] len(result) >= len(data) && (forall j int :: 0 <= j && j < len(data) ==> result[j] == old(data[j]))
+
+//@ func plenccodec.WTVarIntSliceWrapper.Size
+//@   safety C05
+//@   assigns nothing
+//@   assume 0 <= loadi64(ptr + 8) && loadi64(ptr + 8) <= loadi64(ptr + 16) && loadi64(ptr + 16) < (1 << 40)   # the value is a well-formed slice header
+//@   ensures[C05] wfsum() && len(tag) == 0 ==> result == psum(loadi64(ptr + 8))
+//@   ensures[C05] wfsum() && len(tag) != 0 ==> result == len(tag) + vlen(uint64(psum(loadi64(ptr + 8)))) + psum(loadi64(ptr + 8))
+
+//@ func plenccodec.WTVarIntSliceWrapper.Append
+//@   safety C05 C11
+//@   assigns nothing
+//@   assume 0 <= loadi64(ptr + 8) && loadi64(ptr + 8) <= loadi64(ptr + 16) && loadi64(ptr + 16) < (1 << 40)   # the value is a well-formed slice header
+//@   ensures[C05] wfsum() ==> len(result) == len(data) + @Size(p, ptr, tag)              # the codec law: Size is the number of bytes Append adds
+//@   ensures[C02] 0 < len(tag) && len(tag) <= 16 ==> at(result, len(data), bytes(tag), 16)                                                        # a tagged packed slice starts with the tag
+//@   ensures[C02,C05] wfsum() && 0 < len(tag) && len(tag) <= 16 ==> at(result, len(data) + len(tag), venc(uint64(psum(loadi64(ptr + 8)))), 10)    # ... followed by the byte length of the packed body
+//@   ensures[C06,C11] len(result) >= len(data) && (forall j int :: 0 <= j && j < len(data) ==> result[j] == old(data[j]))
+
+//@ func plenccodec.WTFixedSliceWrapper.append
+//@   safety C05 C11
+//@   assigns nothing
+//@   assume 0 <= loadi64(ptr + 8) && loadi64(ptr + 8) <= loadi64(ptr + 16) && loadi64(ptr + 16) < (1 << 40)   # the value is a well-formed slice header
+//@   ghostdef wfsum() ==> psum(0) == 0
+//@   loop 1 ghostdef wfsum() && i < h.Len ==> psum(i + 1) == psum(i) + @plenccodec.Codec.Size(c.Underlying, h.Data + i * int(c.EltSize), nil)
+//@   loop 1 assume 0 <= psum(i) && psum(i) < (1 << 50)              # the total encoded size fits well inside an int
+//@   loop 1 invariant[C05] 0 <= i && i <= h.Len && (wfsum() ==> len(data) == len(data0) + psum(i))
+//@   loop 1 invariant[C06,C11] len(data) >= len(data0) && (forall j int :: 0 <= j && j < len(data0) ==> data[j] == data0[j])
+//@   # fixed-width elements (8 bytes for the fixed 64-bit wire type, 4 for the 32-bit one): the body is exactly len*width bytes
+//@   loop 1 invariant[C05,C02] @plenccodec.Codec.WireType(c.Underlying) == 1 ==> len(data) == len(data0) + 8 * i
+//@   loop 1 invariant[C05,C02] @plenccodec.Codec.WireType(c.Underlying) == 5 ==> len(data) == len(data0) + 4 * i
+//@   loop 1 decreases h.Len - i
+//@   loop 1 step[C02,C05] called_Codec_Append && call_Codec_Append_arg0 == c.Underlying && call_Codec_Append_arg2 == h.Data + head_i * int(c.EltSize) && len(call_Codec_Append_arg3) == 0
+//@   ensures[C05] wfsum() ==> len(result) == len(data) + psum(loadi64(ptr + 8))
+//@   ensures[C06,C11] len(result) >= len(data) && (forall j int :: 0 <= j && j < len(data) ==> result[j] == old(data[j]))
+//@   ensures[C05,C02] @plenccodec.Codec.WireType(c.Underlying) == 1 ==> len(result) == len(data) + 8 * loadi64(ptr + 8)
+//@   ensures[C05,C02] @plenccodec.Codec.WireType(c.Underlying) == 5 ==> len(result) == len(data) + 4 * loadi64(ptr + 8)
+
+//@ func plenccodec.ProtoSliceWrapper.Size
+//@   safety C05 C12
+//@   assigns nothing
+//@   assume 0 <= loadi64(ptr + 8) && loadi64(ptr + 8) <= loadi64(ptr + 16) && loadi64(ptr + 16) < (1 << 40)   # the value is a well-formed slice header
+//@   ghostdef wfsum() ==> psum(0) == 0
+//@   loop 1 ghostdef wfsum() && i < h.Len ==> psum(i + 1) == psum(i) + @plenccodec.Codec.Size(c.Underlying, h.Data + i * int(c.EltSize), tag)
+//@   loop 1 assume 0 <= psum(i) && psum(i) < (1 << 50)              # the total encoded size fits well inside an int
+//@   loop 1 invariant[C05,C12] 0 <= i && i <= h.Len && (wfsum() ==> l == psum(i))
+//@   loop 1 decreases h.Len - i
+//@   ensures[C05,C12] wfsum() ==> result == psum(loadi64(ptr + 8))
+
+//@ # the protobuf repeated-field form: every element written as a field of its own, with the field's tag
+//@ func plenccodec.ProtoSliceWrapper.Append
+//@   safety C05 C11 C12
+//@   assigns nothing
+//@   assume 0 <= loadi64(ptr + 8) && loadi64(ptr + 8) <= loadi64(ptr + 16) && loadi64(ptr + 16) < (1 << 40)   # the value is a well-formed slice header
+//@   ghostdef wfsum() ==> psum(0) == 0
+//@   loop 1 ghostdef wfsum() && i < h.Len ==> psum(i + 1) == psum(i) + @plenccodec.Codec.Size(c.Underlying, h.Data + i * int(c.EltSize), tag)
+//@   loop 1 assume 0 <= psum(i) && psum(i) < (1 << 50)              # the total encoded size fits well inside an int
+//@   loop 1 invariant[C05,C12] 0 <= i && i <= h.Len && (wfsum() ==> len(data) == len(data0) + psum(i))
+//@   loop 1 invariant[C06,C11] len(data) >= len(data0) && (forall j int :: 0 <= j && j < len(data0) ==> data[j] == data0[j])
+//@   loop 1 decreases h.Len - i
+//@   loop 1 step[C12,C02] called_Codec_Append && call_Codec_Append_arg0 == c.Underlying && call_Codec_Append_arg2 == h.Data + head_i * int(c.EltSize) && call_Codec_Append_arg3 == tag
+//@   ensures[C05,C12] wfsum() ==> len(result) == len(data) + psum(loadi64(ptr + 8))
+//@   ensures[C06,C11] len(result) >= len(data) && (forall j int :: 0 <= j && j < len(data) ==> result[j] == old(data[j]))
+
+//@ func plenccodec.WTFixedSliceWrapper.Size
+//@   safety C05
+//@   assigns nothing
+//@   assume 0 <= loadi64(ptr + 8) && loadi64(ptr + 8) <= loadi64(ptr + 16) && loadi64(ptr + 16) < (1 << 40)   # the value is a well-formed slice header
+//@   ensures[C05,C02] len(tag) == 0 && @plenccodec.Codec.WireType(p.Underlying) == 1 ==> result == 8 * loadi64(ptr + 8)
+//@   ensures[C05,C02] len(tag) == 0 && @plenccodec.Codec.WireType(p.Underlying) == 5 ==> result == 4 * loadi64(ptr + 8)
+//@   ensures[C05,C02] len(tag) != 0 && @plenccodec.Codec.WireType(p.Underlying) == 1 ==> result == len(tag) + vlen(uint64(8 * loadi64(ptr + 8))) + 8 * loadi64(ptr + 8)
+//@   ensures[C05,C02] len(tag) != 0 && @plenccodec.Codec.WireType(p.Underlying) == 5 ==> result == len(tag) + vlen(uint64(4 * loadi64(ptr + 8))) + 4 * loadi64(ptr + 8)
+
+//@ func plenccodec.WTFixedSliceWrapper.Append
+//@   safety C05 C11
+//@   assigns nothing
+//@   assume 0 <= loadi64(ptr + 8) && loadi64(ptr + 8) <= loadi64(ptr + 16) && loadi64(ptr + 16) < (1 << 40)   # the value is a well-formed slice header
+//@   # the wrapper is only ever built around fixed-width element codecs (dispatcher): for those, Size is the number of bytes Append adds
+//@   ensures[C05] @plenccodec.Codec.WireType(p.Underlying) == 1 || @plenccodec.Codec.WireType(p.Underlying) == 5 ==> len(result) == len(data) + @Size(p, ptr, tag)
+//@   ensures[C02] 0 < len(tag) && len(tag) <= 16 ==> at(result, len(data), bytes(tag), 16)
+//@   ensures[C06,C11] len(result) >= len(data) && (forall j int :: 0 <= j && j < len(data) ==> result[j] == old(data[j]))
